@@ -548,3 +548,43 @@ def borrow(rc, rule: str, *sections, note: str = ""):
         f.rule = rule
     for o in res.obligations[so:]:
         o.rule = rule
+
+
+def mutation_analysis(rc):
+    """One alias / mutation / dtype analysis per run (it is a whole-package fixpoint)."""
+    ctx = rc.ctx if hasattr(rc, "ctx") else rc
+    ma = getattr(ctx, "_mutation_analysis", None)
+    if ma is None:
+        from ..mutation import MutationAnalysis
+        ma = MutationAnalysis(ctx.repo, ctx.linker)
+        ctx._mutation_analysis = ma
+    return ma
+
+
+def hidden_state(rc, rule: str, roots, what: str):
+    """Borrow C20's "a function of its arguments" contract for the functions reachable from `roots`."""
+    from . import c20
+    rc.res.rule(rule, f"{what}: the result is computed from the arguments only - nothing reachable keeps state between calls (a module-level memo, counter or "
+                      "registry) or calls a nondeterminism source (id(), hash(), random, time)")
+    borrow(rc, rule, lambda rc_: c20.sec_hidden_state(rc_, roots, what))
+
+
+def carry(ev, loop, env, benv, skip=()):
+    """Loop-carried state: a name the loop body assigns and that already has a value before the loop may hold, at the start
+    of an iteration, whatever an earlier iteration left in it (`best = None` before the loop, re-assigned only on some
+    paths inside it).  Evaluating one iteration with the *initial* value would model the first iteration only: every
+    such name that the caller has not given a value of its own is replaced by an unknown `<name>@carried`."""
+    body = ast.Module(body=list(loop.body), type_ignores=[])
+    targets = {n.id for n in ast.walk(loop.target) if isinstance(n, ast.Name)} if isinstance(loop, ast.For) else set()
+    out = []
+    for nme in stored_names(body):
+        if nme in targets or nme in skip or nme not in env:
+            continue
+        if nme in benv and benv[nme] is not env[nme]:
+            continue                    # the caller models this one itself
+        v = env[nme]
+        if isinstance(v, Vec) and v.kind == "list":
+            continue                    # accumulators are handled by the rules (appends are events)
+        benv[nme] = ev.symbol(nme + "@carried", isinstance(v, Rat) and v.is_array())
+        out.append(nme)
+    return out
